@@ -156,7 +156,7 @@ func genValue(n *node) func(*frame) reflect.Value {
 func genDestValue(typ *itype, n *node) func(*frame) reflect.Value {
 	convertLiteralValue(n, typ.TypeOf())
 	switch {
-	case isInterfaceSrc(typ) && (!isEmptyInterface(typ) || len(n.typ.method) > 0):
+	case isInterfaceSrc(typ) && (!isEmptyInterface(typ) || hasMethodSrc(n.typ)):
 		return genValueInterface(n)
 	case isNamedFuncSrc(n.typ):
 		return genFunctionWrapper(n)
